@@ -36,3 +36,23 @@ Definition oracle_from (c : string_type * eos * option (list subset)) : bool :=
       forallb (fun ch => Bool.eqb (denote l ch) (semb_alpha_rn inner ch)) (firstn 300 base)
       && forallb (fun ch => negb (denote l ch)) (filter (fun ch => negb (existsb (N.eqb ch) base)) (map N.of_nat (seq 0 300)))
   end.
+
+(* soundness half of [oracle_from]: every permitted character of the base alphabet is denoted (no annotation denotes all),
+   and nothing outside the base alphabet is *)
+Definition oracle_from_sound (c : string_type * eos * option (list subset)) : bool :=
+  let '(t, inner, obs) := c in
+  let base := firstn 400 (character_set t) in
+  match obs with
+  | None => true
+  | Some l =>
+      forallb (fun ch => implb (semb_alpha_rn inner ch) (denote l ch)) (firstn 300 base)
+      && forallb (fun ch => negb (denote l ch)) (filter (fun ch => negb (existsb (N.eqb ch) base)) (map N.of_nat (seq 0 300)))
+  end.
+
+(* model of a whole-constraint inclusion against the observed annotation: (type, included type, its constraints, observed) *)
+Definition corr_incl (c : string_type * string_type * list constraint * option (list subset)) : bool :=
+  let '(t, t', cs', v) := c in
+  match alphabet_annotation_a (fuel_cs cs') t [AIncl t' cs'] with
+  | Ok o => opt_eqb (list_eqb subset_eqb) o v
+  | _ => false
+  end.
